@@ -300,6 +300,58 @@ def install():
     swrap(SD, 'pop', b_pop)
 
 
+CODEC = []          # recorded parse()/dump() calls of the test-suite
+
+
+def install_codec():
+    import hszinc
+    import hszinc.parser as pmod
+    import hszinc.dumper as dmod
+    import absval
+    A = absval.Abs(hszinc)
+    orig_parse, orig_dump = pmod.parse, dmod.dump
+
+    def norm_mode(mode):
+        try:
+            return pmod._parse_mode(mode)
+        except Exception:
+            return None
+
+    import hszinc.datatypes as dtmod
+
+    def rec_parse(grid_str, mode=pmod.MODE_ZINC, charset='utf-8', single=True):
+        r = orig_parse(grid_str, mode=mode, charset=charset, single=single)
+        if depth() == 0 and len(CODEC) < 4000:
+            try:
+                m = norm_mode(mode)
+                text = grid_str.decode(charset) if isinstance(grid_str, bytes) else grid_str
+                grids = ([] if r is None else [r]) if single else list(r)
+                if isinstance(text, str):
+                    CODEC.append({'op': 'parse', 'mode': m, 'text': text, 'single': bool(single), 'abs': A.doc(grids)})
+                elif m == pmod.MODE_JSON:
+                    CODEC.append({'op': 'parse', 'mode': m, 'text': json.dumps(text), 'single': bool(single), 'abs': A.doc(grids)})
+            except Exception:
+                pass
+        return r
+
+    def rec_dump(grids, mode=pmod.MODE_ZINC):
+        r = orig_dump(grids, mode=mode)
+        if depth() == 0 and len(CODEC) < 4000:
+            try:
+                m = norm_mode(mode)
+                gs = [grids] if isinstance(grids, hszinc.Grid) else list(grids)
+                CODEC.append({'op': 'dump', 'mode': m, 'text': r, 'single': isinstance(grids, hszinc.Grid), 'abs': A.doc(gs)})
+            except Exception:
+                pass
+        return r
+    for mod in (hszinc, pmod):
+        if getattr(mod, 'parse', None) is orig_parse:
+            mod.parse = rec_parse
+    for mod in (hszinc, dmod):
+        if getattr(mod, 'dump', None) is orig_dump:
+            mod.dump = rec_dump
+
+
 def dump():
     out = os.environ.get('VERIF_REC_OUT')
     if not out:
@@ -339,13 +391,15 @@ def dump():
         if not bad:
             st.append({'cls': t['cls'], 'evs': evs})
     with open(out, 'w') as f:
-        json.dump({'grids': gt, 'maps': st,
+        json.dump({'grids': gt, 'maps': st, 'codec': CODEC,
                    'stats': {'grids_seen': len(G_TRACES), 'maps_seen': len(S_TRACES),
                              'grid_traces': len(gt), 'map_traces': len(st)}}, f)
 
 
 def pytest_configure(config):
     install()
+    if os.environ.get('VERIF_REC_CODEC'):
+        install_codec()
 
 
 def pytest_sessionfinish(session, exitstatus):
